@@ -21,6 +21,11 @@ impl Rng {
     }
 }
 
+/// NaN-aware comparisons for oracles: a NaN on either side counts as a violation of `a <= b` / `a >= b`
+pub fn gt(a: f64, b: f64) -> bool { !(a <= b) }
+pub fn lt(a: f64, b: f64) -> bool { !(a >= b) }
+/// max that propagates NaN (f64::max drops it)
+pub fn nmax(a: f64, b: f64) -> f64 { if a.is_nan() || b.is_nan() { f64::NAN } else { a.max(b) } }
 pub fn hx(v: f64) -> String { format!("{:016x}", v.to_bits()) }
 pub fn hxs(vs: &[f64]) -> String { vs.iter().map(|v| hx(*v)).collect::<Vec<_>>().join(" ") }
 
